@@ -69,10 +69,40 @@ class BuildLock:
 
 # ----------------------------------------------------------------------------------------
 
+def lean_import_closure(roots):
+    """module names reachable from the given module names through `import` lines of the project's own files"""
+    seen, todo = set(), list(roots)
+    while todo:
+        m = todo.pop()
+        if m in seen:
+            continue
+        seen.add(m)
+        f = os.path.join(LEAN, *m.split(".")) + ".lean"
+        if not os.path.exists(f):
+            continue
+        for line in open(f, encoding="utf-8"):
+            mm = re.match(r"import\s+((?:NucleoVerif|Main)[A-Za-z0-9_.]*)", line)
+            if mm:
+                todo.append(mm.group(1))
+    return seen
+
+
 def translate(ctx):
+    """runs every generator; the result counts against this property only if a generator failed whose file the property's
+    theorem modules or the model driver import (the other generated files are left as they were)"""
     rc, out = sh([sys.executable, os.path.join(ROOT, "translator", "translate.py")])
     ctx.log(out.strip())
-    return rc == 0, out
+    if rc == 0:
+        return True, out
+    failed = re.findall(r"TRANSLATE-ERROR (\w+)\.lean", out)
+    if not failed:
+        return False, out
+    closure = lean_import_closure(prop_modules(ctx.pid) + ["Main"])
+    mine = [f for f in failed if f"NucleoVerif.Gen.{f}" in closure]
+    if not mine:
+        ctx.log("translator errors concern generated files this property does not import: " + ", ".join(failed))
+        return True, out
+    return False, "\n".join(l for l in out.splitlines() if any(f"TRANSLATE-ERROR {f}.lean" in l for f in mine))
 
 
 def lean_build(ctx, targets):
